@@ -46,6 +46,9 @@ impl<T> RingBuf for RcBuf<T> {
 P = []  # (name, kind, body, doc)
 def pos(name, generics, stmt, doc):
     P.append((name, "positive", "fn probe%s() { %s }\nfn main() {}\n" % (generics, stmt), doc))
+def alias(name, prop, generics, param_ty, expected_ty, doc):
+    """type-equality probe: compiles iff the public alias `param_ty` IS `expected_ty` (moving a value of one type out as the other)"""
+    P.append((name, "alias:" + prop, "fn probe%s(x: %s) -> %s { x }\nfn main() {}\n" % (generics, param_ty, expected_ty), doc))
 def neg(name, ty, tr, doc):
     P.append((name, "negative", "fn main() { assert_not_impl!(%s, %s); }\n" % (ty, tr), doc))
 
@@ -152,6 +155,12 @@ P.append(("channel_rcbuf_receive_future_not_send", "negative", VAL % "let f = ch
 P.append(("channel_rcbuf_send_future_not_send", "negative", VAL % "let f = ch.send(1); assert_not_send(&f);",
           "the send future of a (non-Sync) channel with a !Send buffer: must be !Send (D5)"))
 
+# ---------------- C09: the "unbuffered" convenience aliases name a zero-capacity array buffer (rendezvous) ----------------
+alias("local_unbuffered_channel_has_capacity_0", "C09", "<T>", "LocalUnbufferedChannel<T>", "LocalChannel<T, [T; 0]>",
+      "LocalUnbufferedChannel<T> is the local array-backed channel with a buffer of length 0")
+alias("unbuffered_channel_has_capacity_0", "C09", "<T>", "UnbufferedChannel<T>", "GenericChannel<PL, T, ArrayBuf<T, [T; 0]>>",
+      "UnbufferedChannel<T> is the array-backed thread-safe channel with a buffer of length 0")
+
 def main(outdir, repo):
     ex = os.path.join(outdir, "examples")
     os.makedirs(ex, exist_ok=True)
@@ -160,7 +169,7 @@ def main(outdir, repo):
     table = []
     for (name, kind, body, doc) in P:
         open(os.path.join(ex, name + ".rs"), "w").write("// %s probe: %s\n%s%s" % (kind, doc, PRELUDE, body))
-        table.append({"name": name, "kind": kind, "doc": doc})
+        table.append({"name": name, "kind": kind.split(":")[0], "prop": kind.split(":")[1] if ":" in kind else "C16", "doc": doc})
     open(os.path.join(outdir, "Cargo.toml"), "w").write('''[package]
 name = "c16-probes"
 version = "0.0.0"
